@@ -37,7 +37,7 @@ func NewSolver() *Solver {
 		panic(err)
 	}
 	s := &Solver{cmd: cmd, in: in, w: bufio.NewWriterSize(in, 1<<16), out: bufio.NewReader(out), defined: map[*T]int{}, defLog: [][]*T{nil}, funcs: map[string]int{}, funLog: [][]string{nil}}
-	s.send("(set-option :timeout 20000)")
+	s.send("(set-option :timeout 60000)")
 	s.send("(set-logic QF_UFBV)")
 	return s
 }
